@@ -274,18 +274,49 @@ func c08Run(r *vlib.Run, sc c08Scenario, idx int) (evaluated bool) {
 		}
 		stalls = atomic.LoadInt64(&pm.stalls)
 		if bound {
-			// stronger evidence where it can be had: lines written to the pipe
-			// minus events that came out must exceed the buffer's 10000 slots
+			// stronger evidence where it can be had: lines written to the pipe and not
+			// yet come out as events are held in the pipe and in the hand-over
+			// buffer. The buffer is full when that number has stopped growing
+			// although the pump keeps stalling (it then equals capacity + pipe
+			// content, whatever the capacity is) - or, short cut, once it exceeds
+			// the 10000 slots the buffer has today.
+			var window []int
+			stallsAt := atomic.LoadInt64(&pm.stalls)
+			full := false
 			for time.Now().Before(deadline) && !d.hasExited() {
-				inflight = int(atomic.LoadInt64(&pm.lines)) - strings.Count(string(d.outputRaw()), "\n")
+				pumped := int(atomic.LoadInt64(&pm.lines)) // read first: the difference is a lower bound
+				inflight = pumped - d.outputLineCount()
 				if inflight >= 10000 {
+					full = true
 					break
 				}
-				time.Sleep(5 * time.Millisecond)
+				now := atomic.LoadInt64(&pm.stalls)
+				if now > stallsAt && inflight >= 1000 {
+					window = append(window, inflight)
+				} else {
+					window = window[:0]
+				}
+				stallsAt = now
+				if len(window) >= 12 {
+					lo, hi := window[len(window)-12], window[len(window)-12]
+					for _, v := range window[len(window)-12:] {
+						if v < lo {
+							lo = v
+						}
+						if v > hi {
+							hi = v
+						}
+					}
+					if hi-lo <= hi/50 { // no growth over twelve samples (~250 ms) of continuous stalling
+						full = true
+						break
+					}
+				}
+				time.Sleep(20 * time.Millisecond)
 			}
-			if inflight < 10000 {
+			if !full {
 				pm.halt()
-				r.Inconclusive(fmt.Sprintf("%s: only %d lines in flight between pipe and output: the hand-over buffer is not full", label, inflight))
+				r.Inconclusive(fmt.Sprintf("%s: %d lines in flight between pipe and output and still growing or the writer not stalling: the hand-over buffer is not full", label, inflight))
 				return false
 			}
 		}
@@ -469,7 +500,7 @@ func checkC08(r *vlib.Run) int {
 	r.Set("causes", c08Causes)
 	r.Require(evals >= len(scs)*8/10, "fewer than 80% of the scenarios could be evaluated")
 	r.Require(r.Get("saturated_scenarios_with_observed_stalls") >= 2, "saturation was not reached in at least two scenarios")
-	r.Assumptions = []string{"'saturated' is observed: the pumping writer's write(2) hit EAGAIN at least five times before the fault is injected, otherwise the scenario is inconclusive",
+	r.Assumptions = []string{"'saturated' is observed: the pumping writer's write(2) hit EAGAIN at least five times and the number of lines in flight between pipe and output stopped growing (or passed 10000) before the fault is injected, otherwise the scenario is inconclusive",
 		"'does not exit' is a violation only if the SIGQUIT dump shows main parked in errgroup.Wait and a worker parked; otherwise inconclusive",
 		"signals may end the process with any status; failures must give a non-zero status"}
 	return r.Finish(evals, dist.Len(), "built daemon x failure cause {sshd pipe EOF, audit pipe EOF, either pipe's EOF in the middle of a record, malformed audit line, event write failure via /dev/full, sshd/audit path is a regular file / missing / a directory, SIGTERM, SIGINT} x load {idle with writers attached, idle with the other pipe still waiting for its writer, saturated by a pumping writer} x log level {error, debug}, six causes with the HTTP health/metrics server enabled and three of them with a scrape client that never reads its answers, every cause with -audit-metrics (ticker member of the worker group, 20 ms); thorough: x3 and with the -race build; distinct = (cause, load) pairs evaluated")
